@@ -35,6 +35,7 @@ def line(idx, rng, maxn=8, maxlen=10, miri=False):
             d["bomb"] = 1
     if pan:
         d["panics"] = ",".join(pan)
+    d["oalign"] = rng.choice([0, 0, 1])          # the task closure owns a u128 and a 64-byte-aligned block
     d["reuse"] = rng.choice([0, 1])          # clear and reuse one result vector across broadcasts, as the sample loop does
     r = rng.random()
     if r < 0.3 and len(hist) >= 2:
